@@ -44,9 +44,11 @@ structure Board where
   friend : Bool
   /-- the uid is one of the four entries of `SHM.BMCache[bid]` -/
   inBM : Bool
-  /-- the expiry time written in the user's ban file for this board, if the file exists
+  /-- the expiry time written in the user's ban file for this board, if the file exists and can be read
       (`home/<u>/<user>/banned/b_<board>`; an unreadable number reads as 0) -/
   ban : Option Int
+  /-- a ban record exists but cannot be read (empty: created, text not flushed yet; a directory; an I/O error) -/
+  banBroken : Bool
   deriving DecidableEq, Repr, Inhabited
 
 /-- the article addressed by Recommend / EditPost / CrossPost. -/
